@@ -125,7 +125,7 @@ func init() {
 			return s
 		},
 		Run:  c07Run,
-		Rule: "matrix: 93 subjects (61 injected value kinds incl. nil pointer/map/slice/func and empty HTML, unknown identifier, literals, field/index/helper/user-function results) x 14 syntactic contexts (if, silent if, else-if, !, !!, && and || on either side, if(!x), if(x && 1), inside for / fn / helper block): every context must report the truth value given by the statement's table (which makes them agree with each other). chains: if + k else-if (+ else), k<=3, every assignment of condition values from {true,false,0,\"\",\"a\",nil} through a counting helper plus the bare conditions nope / !nope (unknown identifier), blocks as text or as return, at top level, inside for / fn / helper block and evaluated twice (loop of two iterations, function called twice): exactly the first truthy block (or else / nothing) is rendered and conditions 0..j are evaluated once each, none after j. Non-trivial: all cases.",
+		Rule: "matrix: 93 subjects (61 injected value kinds incl. nil pointer/map/slice/func and empty HTML, unknown identifier, literals, field/index/helper/user-function results) x 14 syntactic contexts (if, silent if, else-if, !, !!, && and || on either side, if(!x), if(x && 1), inside for / fn / helper block): every context must report the truth value given by the statement's table (which makes them agree with each other). chains: if + k else-if (+ else), k<=3, every assignment of condition values from {true,false,0,\"\",\"a\",nil} through a counting helper plus the bare conditions nope / !nope (unknown identifier), blocks as text or as return, at top level, inside for / fn / helper block and evaluated twice (loop of two iterations, function called twice): exactly the first truthy block (or else / nothing) is rendered and conditions 0..j are evaluated once each, none after j. ill-formed chains (a second else, or an else if, after the else block): an error or the textually first truthy block, never a later part. Non-trivial: all cases.",
 		Bound: func(th bool) string {
 			return "matrix complete; chains with up to 3 else-if branches, 8 condition values, 6 placements, 2 block styles"
 		},
@@ -156,6 +156,30 @@ func c07Run(t *engine.T, shard string) {
 					}
 					return fmt.Sprintf("truthy=%v", s.truthy), nil
 				})
+			}
+		}
+		// ill-formed chains: nothing may follow the else block. Rendering them must not pick a block out of
+		// textual order (an error, or the first truthy block in textual order, are both fine).
+		for _, c1 := range []string{"true", "false"} {
+			for _, c2 := range []string{"true", "false"} {
+				for _, tail := range []string{` else if (` + c2 + `) { %>B<% }`, ` else { %>E2<% }`, ` else { %>E2<% } else if (` + c2 + `) { %>B<% }`} {
+					src := `<%= if (` + c1 + `) { %>A<% } else { %>E<% }` + tail + ` %>`
+					want := "E"
+					if c1 == "true" {
+						want = "A"
+					}
+					t.Case("ill-formed chain "+q(src), true, func() (string, *engine.Fail) {
+						var log []int
+						out, err := Render(src, c07Context(&log))
+						if err != nil {
+							return "rejected", nil
+						}
+						if out != want {
+							return "", engine.Failf("mismatch", "a part written after the else block was chosen: expected an error or %q, got %q", want, out)
+						}
+						return "textual-order", nil
+					})
+				}
 			}
 		}
 		return
